@@ -61,6 +61,7 @@ type srvHello struct {
 	cookie                            bool
 	psk                               int // -1 absent
 	alpn                              string
+	ems                               bool // extended_master_secret present
 }
 
 func parseServerHello(b []byte, hrr bool) (*srvHello, bool) {
@@ -131,6 +132,8 @@ func parseServerHello(b []byte, hrr bool) (*srvHello, bool) {
 			if len(body) == 2 {
 				h.psk = int(body[0])<<8 | int(body[1])
 			}
+		case 23:
+			h.ems = true
 		case 16:
 			if len(body) >= 3 {
 				h.alpn = string(body[3:])
@@ -191,4 +194,17 @@ func flightTerm(res *result, ss tls.ConnectionState, brotliCert bool) (string, b
 		cc = "(Some 2)" // the scripted server sent the certificate as CompressedCertificate(brotli)
 	}
 	return fmt.Sprintf("(mkFlight %s %s %s %s %s true)", hrrT, helloTerm(sh), vh.Str(eeALPN), cc, skx), true
+}
+
+// lastServerHello: the (non-HRR) ServerHello among the server's plaintext messages.
+func lastServerHello(ms []hsMsg) *srvHello {
+	var out *srvHello
+	for _, m := range ms {
+		if m.Typ == 2 && !isHRR(m) {
+			if h, ok := parseServerHello(m.Body, false); ok {
+				out = h
+			}
+		}
+	}
+	return out
 }
